@@ -245,7 +245,7 @@ def gen_instr(out_src, tier, harnesses, table, last):
                         "dep_hashes": {d: FN_HASHES["file::" + d] for d in deps},
                         "module": e["module"],
                         "shapes": len(part),
-                        "cost": round(len(part) * (6 if nvec == 0 else (14 if nvec == 1 else 28)) * {"NoPanic": 0.8, "Sem": 1.0, "Frame": 1.6, "Twice": 2.0, "Cost": 1.0}[mode_rs] * (6 if heavy else (3 if fheavy else 1)) + 8, 1),
+                        "cost": round(len(part) * (6 if nvec == 0 else (14 if nvec == 1 else 28)) * {"NoPanic": 0.8, "Sem": 1.0, "Frame": 1.6, "Twice": 2.0, "Cost": 1.0}[mode_rs] * (6 if heavy else (6 if fheavy else 1)) + 8, 1),
                         "pre": pre if mode_rs == "NoPanic" else (sem_pre or pre),
                         "index_operand": "concrete set" if opts.get("idx_enum") else "any i32",
                         "sample": {"instruction": name, "shape": {k: v for k, v in part[len(part) // 2][0].items()}, "index": part[len(part) // 2][1]},
